@@ -30,10 +30,13 @@ def _renumber(steps, kept_indices):
     for st in steps:
         st = dict(st)
         if "same_answer_as" in st:
-            if st["same_answer_as"] in pos:
+            needs = [st["same_answer_as"]] + list(st.get("needs", []))
+            if all(n in pos for n in needs):
                 st["same_answer_as"] = pos[st["same_answer_as"]]
+                st["needs"] = [pos[n] for n in st.get("needs", [])]
             else:
-                del st["same_answer_as"]
+                # the expectation only holds with the whole inverse pair in place
+                return None
         out.append(st)
     return out
 
@@ -59,7 +62,7 @@ def minimise(steps, fails, max_tests=400):
             keep = index[:start] + index[start + chunk:]
             if keep and len(keep) < len(index):
                 cand = candidate(keep)
-                if _admissible(cand):
+                if cand is not None and _admissible(cand):
                     tests += 1
                     if fails(cand):
                         index = keep
